@@ -636,9 +636,19 @@ pub fn resume(a: &HashMap<String, String>) -> i32 {
                         steps.push(json!({"a": "markdisc", "secs": secs}));
                         let mut rc = p.to_json();
                         rc["a"] = json!("reconnect");
-                        steps.push(rc);
+                        steps.push(rc.clone());
                         steps.push(poll_ctx());
                         steps.push(settle_wake());
+                        if perm == 0 && cut % 2 == 1 {
+                            // the new connection is lost as well before anything is acknowledged: the second resumption
+                            // must re-send the same packets again
+                            steps.push(json!({"a": "eof"}));
+                            steps.push(settle_wake());
+                            steps.push(json!({"a": "markdisc", "secs": secs}));
+                            steps.push(rc);
+                            steps.push(poll_ctx());
+                            steps.push(settle_wake());
+                        }
                         // the broker acknowledges what it receives on the new connection; QoS 2 goes through both phases
                         steps.push(json!({"a": "autoack"}));
                         steps.push(settle_wake());
@@ -653,6 +663,47 @@ pub fn resume(a: &HashMap<String, String>) -> i32 {
                     }
                 }
             }
+        }
+    }
+    // inbound QoS 2 state is session state too: a message answered PUBREC before the loss and sent again on the resumed
+    // session (before its PUBREL) must not be yielded a second time (C09 across a reconnection)
+    for (sei, secs) in [(100u32, 0u64), (u32::MAX, 0), (u32::MAX, 5_000)] {
+        for variant in 0..3usize {
+            let run = match sink.mine() {
+                Some(x) => x,
+                None => continue,
+            };
+            let p = Params { fam: "resume".into(), r: Some(10), sei_connect: Some(sei), ..Default::default() };
+            let mut steps = vec![p.to_json()];
+            steps.push(json!({"a": "call", "op": 1, "h": 0, "spec": {"kind": "sub", "filters": [{"f": "f/1", "qos": 2}]}}));
+            steps.push(settle_wake());
+            steps.push(json!({"a": "pkt", "pk": {"t": "SUBACK", "id": {"op": 1}, "rcs": [2]}}));
+            steps.push(settle_wake());
+            let m7 = json!({"t": "PUBLISH", "qos": 2, "id": 7, "dup": 0, "topic": "in/a", "payload": "first", "sids": [{"sub": 1}]});
+            steps.push(json!({"a": "pkt", "pk": m7}));
+            if variant >= 1 {
+                steps.push(json!({"a": "pkt", "pk": {"t": "PUBLISH", "qos": 2, "id": 8, "dup": 0, "topic": "in/x", "payload": "other", "sids": [{"sub": 1}]}}));
+            }
+            if variant == 2 {
+                steps.push(json!({"a": "pkt", "pk": {"t": "PUBREL", "id": 8, "rc": 0}}));
+            }
+            steps.push(settle_wake());
+            steps.push(json!({"a": "eof"}));
+            steps.push(settle_wake());
+            steps.push(json!({"a": "markdisc", "secs": secs}));
+            let mut rc = p.to_json();
+            rc["a"] = json!("reconnect");
+            steps.push(rc);
+            steps.push(poll_ctx());
+            steps.push(settle_wake());
+            let mut again = m7.clone();
+            again["dup"] = json!(1);
+            steps.push(json!({"a": "pkt", "pk": again}));
+            steps.push(settle_wake());
+            steps.push(json!({"a": "pkt", "pk": {"t": "PUBREL", "id": 7, "rc": 0}}));
+            steps.push(json!({"a": "pkt", "pk": {"t": "PUBLISH", "qos": 2, "id": 7, "dup": 0, "topic": "in/b", "payload": "second", "sids": [{"sub": 1}]}}));
+            steps.push(settle());
+            sink.run_script(run, steps, seed);
         }
     }
     sink.finish();
@@ -894,6 +945,58 @@ pub fn chunk(a: &HashMap<String, String>) -> i32 {
                     None => continue,
                 };
                 chunk_run(&mut sink, run, "chunk-long", &pks, &cuts, upfront, npings, 0, seed);
+            }
+        }
+        // (e) reads that fill the buffer the framer offers *and* end exactly on a packet boundary: streams whose packet
+        // boundaries fall on 512-byte steps (one packet of exactly 512 bytes; 32 packets of 16 bytes; a long packet
+        // followed by packets that end where the follow-up read of `packet.end` bytes ends), read in aligned chunks
+        let exact = |total: usize, qos: u8, id: u16, tag: usize| -> StreamPk {
+            // PUBLISH with topic "c/<tag>", subscription identifier 1, payload chosen so that the packet is `total` bytes long
+            let mut n = total.saturating_sub(20);
+            loop {
+                let p = mk(&in_publish(qos, id, n, tag), 9);
+                if p.bytes.len() == total {
+                    return p;
+                }
+                if p.bytes.len() > total {
+                    if n == 0 {
+                        return p; // cannot be made smaller
+                    }
+                    n = n.saturating_sub(p.bytes.len() - total);
+                } else {
+                    n += total - p.bytes.len();
+                }
+            }
+        };
+        let mut aligned: Vec<(Vec<StreamPk>, Vec<usize>)> = vec![];
+        for t in [512usize, 1024, 511, 513] {
+            aligned.push((vec![exact(t, 0, 1, 1)], vec![]));
+            aligned.push((vec![exact(t, 1, 2, 2), mk(&Pk::new(mqtt::PINGRESP), 9)], vec![t]));
+        }
+        aligned.push(((0..32).map(|i| exact(16, 0, 1, i)).collect(), vec![]));
+        aligned.push(((0..64).map(|i| exact(16, (i % 2) as u8, 3 + i as u16, i)).collect(), vec![512]));
+        aligned.push((vec![exact(500, 0, 1, 1), mk(&session::ack(mqtt::PUBREL, 9, 0), 2), exact(8, 0, 1, 2)], vec![]));
+        for big in [600usize, 1024, 2000, 3000] {
+            // first read 512 bytes, then the framer asks for `packet.end` more: deliver exactly that, ending on a boundary
+            let mut v = vec![exact(big, 1, 7, 5)];
+            let mut rest = 512usize;
+            let mut i = 0;
+            while rest > 0 {
+                let n = if rest >= 48 { 16 } else { rest };
+                v.push(exact(n.max(12), 0, 1, 10 + i));
+                rest -= n.max(12).min(rest);
+                i += 1;
+            }
+            aligned.push((v, vec![512, 512 + big]));
+        }
+        for (apks, cuts) in aligned {
+            let np = apks.iter().filter(|p| p.abs["t"] == "PINGRESP").count();
+            for upfront in [true, false] {
+                let run = match sink.mine() {
+                    Some(x) => x,
+                    None => continue,
+                };
+                chunk_run(&mut sink, run, "chunk-long", &apks, &cuts, upfront, np, 0, seed);
             }
         }
     }
